@@ -135,6 +135,7 @@ type nestRec struct {
 	AK []int `json:"ak"`
 	AV []int `json:"av"`
 	AC int   `json:"ac"`
+	AP int   `json:"ap"` // nested range loops that panicked on break
 }
 
 // exitPoints: where the consumer stops (around leaf and subtree boundaries, at the ends).
@@ -828,15 +829,22 @@ func examine[K cmp.Ordered](s spec, api treeAPI[K], in caseInput, memVal reader[
 					ob.Evals += len(asks)
 					if at%2 == 0 {
 						nr.AC++
-						j := 0
-						for k2, v2 := range t.All() {
-							nr.AK = append(nr.AK, rank[api.fromK(k2)])
-							nr.AV = append(nr.AV, vr.vidOf(r, v2))
-							j++
-							if j >= 3 {
-								break
+						func() {
+							defer func() {
+								if recover() != nil {
+									nr.AP++
+								}
+							}()
+							j := 0
+							for k2, v2 := range t.All() {
+								nr.AK = append(nr.AK, rank[api.fromK(k2)])
+								nr.AV = append(nr.AV, vr.vidOf(r, v2))
+								j++
+								if j >= 3 {
+									break
+								}
 							}
-						}
+						}()
 						ob.Evals++
 					}
 					at++
